@@ -12,13 +12,8 @@ SCRATCH = "/tmp/espada-mut"
 def prepare():
     shutil.rmtree(SCRATCH, ignore_errors=True)
     os.makedirs(SCRATCH)
-    for n in ("src", "examples", "benches", "Cargo.toml", "Cargo.lock"):
-        s = os.path.join("/repo", n)
-        d = os.path.join(SCRATCH, n)
-        if os.path.isdir(s):
-            shutil.copytree(s, d)
-        else:
-            shutil.copy(s, d)
+    # mutants are edits of the committed tree: take HEAD, not a working tree another tool may have patched
+    subprocess.run("git -C /repo archive HEAD src examples benches Cargo.toml Cargo.lock | tar x -C " + SCRATCH, shell=True, check=True)
 
 def run(m):
     prepare()
